@@ -33,6 +33,8 @@ type Term struct {
 	Sort  Sort
 	Clo   *Closure // statically known function value
 	Tuple []Term   // multi-value
+	LAddr *Addr    // pointer to a non-escaping local (never stored in the heap model)
+	Lost  bool     // a pointer-to-local payload was lost in a merge: using it is outside the subset
 }
 
 func (t Term) String() string { return t.S }
@@ -158,6 +160,13 @@ func ite(c, a, b Term) Term {
 	r := app(a.Sort, "ite", c, a, b)
 	if a.Clo != nil && a.Clo == b.Clo {
 		r.Clo = a.Clo
+	}
+	if a.LAddr != nil || b.LAddr != nil || a.Lost || b.Lost {
+		if a.LAddr == b.LAddr && !a.Lost && !b.Lost {
+			r.LAddr = a.LAddr
+		} else {
+			r.Lost = true
+		}
 	}
 	return r
 }
@@ -433,6 +442,7 @@ const basePreamble = `(declare-datatypes ((Ref 0)) (((null) (obj (objid Int)) (l
 (declare-sort Str 0)
 (declare-sort Fn 0)
 (declare-datatypes ((Unit 0)) (((unit))))
+(declare-datatypes ((Fuel 0)) (((FZ) (FS (fpred Fuel)))))
 (declare-fun strlen (Str) Int)
 (declare-fun strlit (Int) Str)
 (declare-fun strcat (Str Str) Str)
